@@ -82,6 +82,10 @@ CHECKS = {
    text="Stop and Drain are called immediately after Start, during bind retries, between bind and socket publication, before the accept loop and while serving 0/1/50 connections with requests in flight, against responsive / silent / not-reading / closed backends (and a silent slot refresh) for redis and tcp: the call must return within 6 s (a hang needs two identical goroutine dumps), then nobody serves the port, every downstream and upstream connection is closed within 3 s and no goroutine with a frame in samaritan/proc or samaritan/host remains; after Drain established connections still work; with limit L in {1,3,16} at most L connections are ever served at once and a freed slot is reusable.",
    note="Trusted: pause-point placement; the goroutine-profile filter (tcp-shaker singleton excluded); 'served' is observed at the backend's accept/close log.",
    ref="DESIGN.md section 4 C09"),
+ "C04": dict(level="exploration", technique="reference-model equality (sequential) and porcupine linearizability per key (concurrent) with excusal windows, no-leak monitor on every reply, executed-once count of unique write ids in the simulated node log, final key-placement check; scripted step-by-step slot migrations and failovers; plain and -race SUT",
+   text="While slots are walked through IMPORTING / MIGRATING / per-key MIGRATE / SETSLOT on target, source, everyone with client commands between every step, and while masters are killed and replicas promoted: no reply contains a MOVED/ASK error, every non-excused reply equals the single-server reference (Mode A) or the concurrent history is linearizable per key (Mode B, incl. yields injected between ASKING and the redirected command), every unique write is executed at most once on the nodes, and at the end every key lives exactly once, on the owner of its slot, with the reference's value.",
+   note="Trusted: the simulator's redirect rules (cluster specification) and migration order; excusal windows (dead master, or the slot's earlier owner in the same program, until a CLUSTER NODES fetch after the promotion + 30 commands).",
+   ref="DESIGN.md section 4 C04"),
 }
 NOT_BUILT = "check not built yet in this session (design in DESIGN.md section 4)"
 
